@@ -415,7 +415,7 @@ def rule_enum(ctx):
 
 
 # necessary conditions of convergence that other properties' rules decide (router policy independence, definitions, publication, client mirror, framing)
-IMPORTS = [('C05', 'C05.KEY'), ('C05', 'C05.PRED'), ('C07', 'C07.BRANCH'), ('C07', 'C07.DISABLED'), ('C07', 'C07.META'), ('C14', 'C14.SETTER'), ('C15', 'C15.MIRROR'), ('C02', 'C02.LOOP'), ('C02', 'C02.CONSUME'), ('C02', 'C02.DECODE'), ('C09', 'C09.STEP'), ('C10', 'C10.SIGN'), ('C10', 'C10.SIGNR'), ('C10', 'C10.RENDER')]
+IMPORTS = [('C05', 'C05.KEY'), ('C05', 'C05.PRED'), ('C07', 'C07.BRANCH'), ('C07', 'C07.DISABLED'), ('C07', 'C07.META'), ('C14', 'C14.SETTER'), ('C15', 'C15.MIRROR'), ('C02', 'C02.LOOP'), ('C02', 'C02.CONSUME'), ('C02', 'C02.DECODE'), ('C02', 'C02.DISCARD'), ('C09', 'C09.STEP'), ('C10', 'C10.SIGN'), ('C10', 'C10.SIGNR'), ('C10', 'C10.RENDER')]
 
 RULES = [
     ("C01.PUB", rule_pub, "publish after every authoritative store (exemption table with reasons)"),
